@@ -12,7 +12,7 @@ func gen(h *lp.H, do func(string) string, im *impl) {
 	rng := h.Rng
 	policies := []string{"none", "interval", "size:8", "ios:8", "immediate", "size:0", "size:3", "ios:20"}
 	qoss := []string{"r", "u", "p"}
-	for c := 0; c < h.N; c++ {
+	for c := 0; c < h.N && !h.TooMany(); c++ {
 		pol := policies[c%len(policies)]
 		qos := qoss[rng.Intn(3)]
 		pre := "_"
@@ -49,7 +49,7 @@ func gen(h *lp.H, do func(string) string, im *impl) {
 			}
 		}
 		nops := 6 + rng.Intn(24)
-		for s := 0; s < nops; s++ {
+		for s := 0; s < nops && !h.TooMany(); s++ {
 			switch k := rng.Intn(16); {
 			case k < 8:
 				id := 1 + rng.Intn(4)
@@ -148,7 +148,7 @@ func gen(h *lp.H, do func(string) string, im *impl) {
 	}
 	// ---- concurrent mode (oracle only): several writer goroutines, real tickers, Flush from other goroutines, the broker
 	// acknowledging on its own (immediately, with alias assignment); then Close and the conservation oracle on the ledger.
-	for c := 0; c < h.N/8+2; c++ {
+	for c := 0; c < h.N/8+2 && !h.TooMany(); c++ {
 		k := 2 + rng.Intn(7)
 		pol := []string{"realinterval", "size:16", "ios:16", "immediate", "none"}[rng.Intn(5)]
 		h.Case(fmt.Sprintf("conc %d writers=%d policy=%s", c, k, pol))
